@@ -45,7 +45,7 @@ CHECKS = [
              "the executor backend and <= 1 schedule deviation), with a second healthy session interleaved; the "
              "affected command must end in 451 with no success reply, a started transfer's data socket must be closed "
              "(SimNet ledger), PWD and a fresh RETR must work afterwards and the other session's transcript must equal "
-             "its solo run.",
+             "its solo run. Five exception kinds are injected (OSError, TimeoutError, ValueError, KeyError, RuntimeError); bursts of 1-6 pipelined failing commands plus PWD are explored under every iteration order of the finished-task set.",
      "design_ref": "DESIGN.md §5 C13", "note": ENV_NOTE,
      "technique": "exhaustive fault-point enumeration over the implementation on a deterministic event loop"},
     {"property_id": "C14", "level": "model_checking",
@@ -77,7 +77,7 @@ CHECKS = [
      "text": "Every merge of the event lists of every ordered pair of 11 scripts (CWD, REST, RNFR, TYPE, PASV state, "
              "uploads, downloads, ABOR, abrupt cut, re-login) working on disjoint directories is executed on one real "
              "server; pairs are also fired in the same instant under every schedule with <= 1 deviation; each session's "
-             "transcript, received data and tree effects must equal its solo run.",
+             "transcript, received data and tree effects must equal its solo run. Including scripts that log in as a user with a connection limit of 2 (with and without a mistyped first password).",
      "design_ref": "DESIGN.md §5 C17", "note": ENV_NOTE,
      "technique": "exhaustive interleaving enumeration + deviation-bounded stateless schedule exploration, solo run as oracle"},
     {"property_id": "C05", "level": "model_checking",
@@ -86,7 +86,7 @@ CHECKS = [
              "line, data connection made or not) with the real dispatcher as transition function on each backend; every "
              "step is compared with a sequential reference model: number/order/code of replies, PWD and MLST text, "
              "transferred bytes, listing names, the whole tree, and whether the server ended the session; states "
-             "de-duplicated on (model state, white-box connection digest), plus non-de-duplicated sweeps.",
+             "de-duplicated on (model state, white-box connection digest), plus non-de-duplicated sweeps. Plus sweeps for REST scoping (REST, any one command, then a transfer), login histories of a user with a connection limit of 1, and transfers whose data connection arrives after an intermediate command (parameters bound at verb time).",
      "design_ref": "DESIGN.md §5 C05", "note": ENV_NOTE + " The reference model (vf/model.py) is trusted; its deliberate looseness is listed in DESIGN.md §4.1.",
      "technique": "explicit-state BFS over command histories with the implementation as transition function, checked against a reference model"},
     {"property_id": "C18", "level": "model_checking",
@@ -103,14 +103,14 @@ CHECKS = [
              "working directories, for 5 POSIX base paths and a Windows-flavour base, against an independent resolver and a "
              "lexical containment oracle. Wire level: 12 path-taking verbs x 6 CWD/CDUP histories x every short path "
              "string on a spy backend rooted at /base inside a larger file system: no backend call may name a path "
-             "outside the base, nothing outside may change, replies/PWD/cwd follow the reference model.",
+             "outside the base, nothing outside may change, replies/PWD/cwd follow the reference model. Plus re-login cases: users with different base paths on one control connection (state-setting command as A, USER/PASS as B, then every path verb): no backend call may name a path outside B's base.",
      "design_ref": "DESIGN.md §5 C02", "note": ENV_NOTE,
      "technique": "bounded-exhaustive input enumeration against an independent oracle + explicit-state histories on the implementation"},
     {"property_id": "C03", "level": "model_checking",
      "text": "BFS over login histories (USER x5, PASS x3, state-carrying verbs) for three user tables to depth 4 "
              "(thorough 6), de-duplicated on login state; from every distinct state all 24 verbs are probed in upper, "
              "lower and mixed case. Every step is compared with the reference model and, while not logged in, with the "
-             "oracle: no 1xx/2xx/3xx for guarded verbs, zero spy-backend calls, no new listener.",
+             "oracle: no 1xx/2xx/3xx for guarded verbs, zero spy-backend calls, no new listener. Plus pipelined re-USER: USER and a guarded verb written in one segment (with and without a transfer worker of the old login still pending) - the verb must already be refused.",
      "design_ref": "DESIGN.md §5 C03", "note": ENV_NOTE,
      "technique": "explicit-state BFS over command histories with the implementation as transition function + reference model + spy backend"},
     {"property_id": "C04", "level": "model_checking",
@@ -118,7 +118,7 @@ CHECKS = [
              "writable combinations, duplicates allowed) x every query path of depth <= 3 (thorough 4), against a longest-"
              "prefix oracle. Wire level: 7 nesting-pattern tables x 13 permission-checked verbs x 14 targets x 3 cwds x up "
              "to 8 alias spellings ('..' detours through differently-permitted directories, relative forms, doubled and "
-             "trailing slashes), compared with the reference model (550 on denial, tree/cwd/pending rename unchanged).",
+             "trailing slashes), compared with the reference model (550 on denial, tree/cwd/pending rename unchanged). Plus late-data cases: the verb arrives before the data connection, the session changes to a differently-permitted directory while the server waits, then the connection is made - authorisation and transfer must use the location addressed when the verb arrived.",
      "design_ref": "DESIGN.md §5 C04", "note": ENV_NOTE,
      "technique": "bounded-exhaustive input enumeration against an independent oracle + exhaustive wire cases against a reference model"},
     {"property_id": "C01", "level": "model_checking",
@@ -127,7 +127,7 @@ CHECKS = [
              "compositions of tiny payloads, backend, passive mode, throttle) case is executed and compared byte for byte "
              "with the content model; a second session reads the file back (RETR, MLST, MLSD) right after the uploader "
              "received the completion reply; a subset runs under every schedule with <= d deviations including every "
-             "re-segmentation of control and data streams.",
+             "re-segmentation of control and data streams. Plus: another session stats/lists or downloads the same file while the transfer is suspended half-way (slow backend, lock-step window).",
      "design_ref": "DESIGN.md §5 C01", "note": ENV_NOTE,
      "technique": "bounded-exhaustive input enumeration + deviation-bounded stateless schedule/segmentation exploration of the implementation"},
     {"property_id": "C06", "level": "model_checking",
@@ -142,7 +142,7 @@ CHECKS = [
      "text": "Non-interference: for 7 login-history shapes x 3 PASS spellings (+ Client.login) x every password of length "
              "1..2 (thorough 3) over 9 metacharacters plus 12 special strings, the complete formatted log stream (all "
              "loggers at DEBUG: message, args, tracebacks, extras) of a deterministic execution must equal that of a "
-             "reference password of the same length class; plus a literal-substring check.",
+             "reference password of the same length class; plus a literal-substring check. Also raw-byte passwords that are invalid in the server encoding, and Client.login / Client.context with latin-1, ascii and cp1251 clients and passwords those encodings cannot represent.",
      "design_ref": "DESIGN.md §5 C20", "note": ENV_NOTE,
      "technique": "exhaustive input enumeration with a two-run non-interference comparison on a deterministic event loop"},
     {"property_id": "C08", "level": "model_checking",
@@ -150,7 +150,7 @@ CHECKS = [
              "fixed names, at nesting depth 1 and 2, against a server with MLSD/MLST and one with the LIST fallback: one "
              "session through the real client API (mkdir, cd+pwd, cd up, relative cd, upload, list, raw LIST, stat, "
              "exists, download, rename away/back, recursive remove) with the backend tree, PWD, listings and bytes "
-             "compared after every step.",
+             "compared after every step. Also through servers and clients configured with latin-1 and cp1251 (names those encodings can represent).",
      "design_ref": "DESIGN.md §5 C08", "note": ENV_NOTE + " One open known finding (D10, leading whitespace through the ls-format parser).",
      "technique": "bounded-exhaustive input enumeration through the real client and server on a deterministic event loop"},
     {"property_id": "C09", "level": "model_checking",
@@ -158,7 +158,7 @@ CHECKS = [
              "empty directories, same names at different levels; single files) x 5 destinations x write_into x remote "
              "cwd x block size x server flavour for upload and download, plus recursive list from absolute/relative/"
              "empty paths and recursive remove: whole-tree comparison against the documented placement rule, including "
-             "'nothing else changed'.",
+             "'nothing else changed'. Also latin-1 servers/clients with non-ASCII names.",
      "design_ref": "DESIGN.md §5 C09", "note": ENV_NOTE,
      "technique": "bounded-exhaustive input enumeration (all small trees) through the real client and server"},
     {"property_id": "C07", "level": "model_checking",
@@ -180,7 +180,7 @@ CHECKS = [
              "of the five limit levels alone and all ordered pairs x direction x (1..3 connections, 1..2 users) x sizes "
              "with the real client and server at zero latency: cumulative-rate bound at every observed I/O of the "
              "limit-sharing group, finish time within the bound from both sides, independence of unrelated groups, and "
-             "no dependence on the data volume when only the opposite direction is limited.",
+             "no dependence on the data volume when only the opposite direction is limited. End-to-end also with connection churn (other connections of the same users log in and out between the logins of the measured ones) and with re-login from an unlimited to a limited user and back on one control connection.",
      "design_ref": "DESIGN.md §5 C15", "note": ENV_NOTE,
      "technique": "bounded-exhaustive enumeration of operation sequences in virtual time against an arithmetic reference model"},
     {"property_id": "C19", "level": "model_checking",
@@ -191,7 +191,7 @@ CHECKS = [
              "and '..', recursive): must return or raise, never hang (the server hangs up when silent) or loop, and never "
              "drop a listing line. Server: one hostile line per execution (all 256 single bytes, invalid UTF-8, lone CR/"
              "LF, lengths 2^16-2..2^16+2 and 2^17, EOF after every prefix of every verb, mutated arguments) next to a "
-             "healthy session whose transcript must equal its solo run; then fresh login, ledger, server.close().",
+             "healthy session whose transcript must equal its solo run; then fresh login, ledger, server.close(). The hostile session runs in every login state (none, USER sent, logged in as a user with a connection limit) and its server-wide and per-user slots are probed after it dies; a wall-clock watchdog turns a server that spins without yielding into a violation instead of a hung check.",
      "design_ref": "DESIGN.md §5 C19", "note": ENV_NOTE,
      "technique": "bounded-exhaustive mutation-neighbourhood enumeration through the real parsers, client and server"},
 ]
